@@ -11,6 +11,13 @@ one() {
   echo "$m | confirmed=$((1-conf)) | ${line:-not run} | $(echo "$r" | grep "^demo on" | head -1)" > $T/$m
 }
 export -f one
-ls -d /verif/seeded/C*-* | xargs -P 5 -I{} bash -c 'one {} '$T
-cat $(ls $T/* | sort) > $OUT
+# with arguments: only those mutants (the others keep the line they have in RESULTS.txt)
+if [ $# -gt 0 ]; then LIST="$@"; else LIST=$(ls -d /verif/seeded/C*-*); fi
+echo $LIST | tr ' ' '\n' | xargs -P 5 -I{} bash -c 'one {} '$T
+if [ $# -gt 0 ] && [ -f $OUT ]; then
+  for f in $T/*; do m=$(basename $f); grep -v "^$m |" $OUT > $OUT.tmp; mv $OUT.tmp $OUT; done
+  cat $OUT $T/* | sort -t- -k1,1 -k2,2n > $OUT.tmp; mv $OUT.tmp $OUT
+else
+  cat $(ls $T/* | sort) > $OUT
+fi
 rm -rf $T
